@@ -54,6 +54,7 @@ def check(events, task_plot=False, level2=False):
         running = {}     # task slot -> (seq, type, subgrid, buffer)
         busy_sub = {}    # subgrid -> task slot (traversal tasks hold the subgrid lock)
         busy_buf = {}    # buffer -> task slot
+        busy_block = {}  # continuous-source staging block -> task slot (the block lock is the only protection of its buffers)
         adds = deqs = 0
         slot_state = {}  # task slots are cleared between iterations
         for e in evs:
@@ -95,6 +96,14 @@ def check(events, task_plot=False, level2=False):
                     if c in busy_sub:
                         V.append(("overlap/subgrid", "%s: traversal task %d started on subgrid %d while task %d still runs on it (seq %d)" % (tag, a, c, busy_sub[c], seq)))
                     busy_sub[c] = a
+                if b in (tr.T["SOURCE_CONTINUOUS_PHOTON"], tr.T["FLUSH_CONTINUOUS_PHOTON_BUFFERS"]):
+                    # both task types fill/empty the staging buffers of block c (Task::get_subgrid()); those PhotonBuffers are
+                    # plain arrays, so two such tasks on one block at the same time can lose or duplicate a packet
+                    if c in busy_block:
+                        V.append(("overlap/staging-block", "%s: %s task %d started on continuous staging block %d while task %d still works on it (seq %d)"
+                                  % (tag, tr.TASKTYPE[b], a, c, busy_block[c], seq)))
+                    busy_block[c] = a
+                    st["staging_block_tasks"] += 1
                 if b in (tr.T["PHOTON_TRAVERSAL"], tr.T["PHOTON_REEMIT"]):
                     if d in busy_buf:
                         V.append(("overlap/buffer", "%s: task %d started on buffer %d while task %d still holds it (seq %d)" % (tag, a, d, busy_buf[d], seq)))
@@ -112,6 +121,8 @@ def check(events, task_plot=False, level2=False):
                         del busy_sub[r[2]]
                     if busy_buf.get(r[3]) == a:
                         del busy_buf[r[3]]
+                    if r[1] in (tr.T["SOURCE_CONTINUOUS_PHOTON"], tr.T["FLUSH_CONTINUOUS_PHOTON_BUFFERS"]) and busy_block.get(r[2]) == a:
+                        del busy_block[r[2]]
         st["packets_launched"] += sum(launched.values())
         st["packets_terminated"] += sum(term.values())
         st["term_absorb"] += term_kind[E["TERM_ABSORB"]]
